@@ -157,9 +157,15 @@ class BMCI:
                  :math:`\chi^2` limits.
 
         """
-        y_proj = np.dot(self.pc1, (y_obs - self.y_mean).ravel())
-        s_l = y_proj - np.sqrt(2.0 * x2_max / self.pc1_e)
-        s_u = y_proj + np.sqrt(2.0 * x2_max / self.pc1_e)
+        dy = (y_obs - self.y_mean).ravel()
+        y_proj = np.dot(self.pc1, dy)
+        # The projections of the database come from a matrix product, this one
+        # from a dot product: the two may differ by round-off even for an entry
+        # identical to the observation. Widen the window by that round-off.
+        tol = (4.0 * (self.m + 1) * np.finfo(float).eps
+               * np.dot(np.abs(self.pc1), np.abs(dy)))
+        s_l = y_proj - np.sqrt(2.0 * x2_max / self.pc1_e) - tol
+        s_u = y_proj + np.sqrt(2.0 * x2_max / self.pc1_e) + tol
         # Both bounds are inclusive: an entry on the bound (e.g. an exact match
         # with x2_max = 0) has a chi square of at most x2_max.
         i_l = np.searchsorted(self.pc1_proj, s_l, side="left")
